@@ -293,6 +293,13 @@ def c11_oracle(case, io):
     src = outs[0]["regs"][0]
     if outs[1]["regs"][0] != src:
         fails.append("source_modified: indexing modified the source histogram")
+    from ..impl1 import edges_consistent
+    for i, r in enumerate(outs[1]["regs"]):
+        if r is None:
+            continue
+        for a, (bb, nb) in enumerate(zip(r["bins"], r.get("_numpy_bins") or [])):
+            if not edges_consistent(bb, nb):
+                fails.append(f"edges_differ: register {i} axis {a}: numpy_bins {nb} are not the edges of its bins {bb}")
     ret = outs[1]["ret"]
     if op["op"] == "invalid":
         if ret != "REFUSED":
@@ -347,4 +354,182 @@ def c11_oracle(case, io):
         fails.append(f"sel_content: contents are not numpy's h.frequencies[{index}]")
     if [Fraction(x) for x in res["err2"]] != list(np.asarray(ee, dtype=object).ravel()):
         fails.append(f"sel_err2: squared errors are not numpy's h.errors2[{index}]")
+    return fails[:6]
+
+
+# ------------------------------------------------------------------------------------------ C18 ND
+def c18_gen(rng):
+    """histories of public N-d operations with invalid calls injected; register 0 and 1 share axes, register 2 has others"""
+    d = rng.choice([2, 2, 3])
+    gap_axis = rng.choice([None, None, 1, d - 1])
+    axes = []
+    for a in range(d):
+        nb = rng.randint(2, 4)
+        edges = [float(rng.choice([0, 1, -2])) ]
+        for _ in range(nb):
+            edges.append(edges[-1] + rng.choice([1.0, 0.5, 2.0]))
+        pairs = [[edges[i], edges[i + 1]] for i in range(nb)]
+        if gap_axis == a and nb >= 3:
+            pairs[1][0] += 0.25          # a gap between bin 0 and bin 1
+        axes.append((gen1.binning_json(pairs, ire=rng.random() < 0.7, form="static_obj"), pairs))
+    shape = [len(a[1]) for a in axes]
+    n = 1
+    for x in shape:
+        n *= x
+
+    def arrays(dt):
+        isint = dt.startswith("int")
+        f = [rng.randint(0, 9) if isint else rng.randint(0, 36) / 4 for _ in range(n)]
+        e = None if rng.random() < 0.5 else [rng.randint(0, 12) if isint else rng.randint(0, 48) / 4 for _ in range(n)]
+        return [rs(x) for x in f], None if e is None else [rs(x) for x in e]
+
+    ops = []
+    for reg in (0, 1):
+        dt = rng.choice(["int64", "float64", "int32", "float32"])
+        f, e = arrays(dt)
+        ops.append({"op": "of_arrays", "out": reg, "axes": [a[0] for a in axes], "freq": f, "err2": e, "missed": rs(rng.randint(0, 4)),
+                    "dtype": dt, "keep": rng.random() < 0.85, "names": [f"ax{i}" for i in range(d)]})
+    other = [gen1.binning_json([[100.0 + 3 * i, 101.0 + 3 * i] for i in range(s_ + 1)], form="pairs") for s_ in shape]
+    m = 1
+    for x in shape:
+        m *= x + 1
+    ops.append({"op": "of_arrays", "out": 2, "axes": other, "freq": ["1"] * m, "err2": None, "missed": "0", "dtype": "int64",
+                "keep": True, "names": [f"ax{i}" for i in range(d)]})
+    nfree = 3
+    tags = ["nd", f"d:{d}"] + (["gapped_axis:%d" % gap_axis] if gap_axis is not None else [])
+    mid = [(p[0][0] + p[0][1]) / 2 for _, p in axes]
+    for _ in range(rng.randint(2, 7)):
+        h = rng.choice([0, 0, 1])
+        if rng.random() < 0.4:
+            bad = rng.choice(["iadd_incompatible", "add_incompatible", "fill_n_wshape", "neg_imul", "zero_idiv", "merge_all_gap",
+                              "merge_frac", "fill_wrong_dim", "fill_n_wrong_cols", "mul_hist", "add_array", "proj_range",
+                              "too_many_indices", "set_dtype_bad", "sub_too_much", "add_none"])
+            tags.append("bad:" + bad)
+            if bad == "iadd_incompatible":
+                ops.append({"op": "iadd", "h": h, "o": 2, "expect_refused": True})
+            elif bad == "add_incompatible":
+                ops.append({"op": "add", "a": h, "b": 2, "out": nfree, "expect_refused": True}); nfree += 1
+            elif bad == "fill_n_wshape":
+                ops.append({"op": "fill_n", "h": h, "rows": [[rs(v) for v in mid], [rs(v) for v in mid]], "ws": ["1", "2", "3"],
+                            "wkind": "int64", "expect_refused": True})
+            elif bad == "neg_imul":
+                ops.append({"op": "imul", "h": h, "c": "-2", "k": "pyint", "maybe_refused": True})
+            elif bad == "zero_idiv":
+                ops.append({"op": "idiv", "h": h, "c": "0", "k": "pyint", "expect_refused": True})
+            elif bad == "merge_all_gap":
+                # all axes at once: with a gapped later axis the call is refused after axis 0 could already be merged
+                ops.append({"op": "merge", "h": h, "amount": 2, "inplace": True, "maybe_refused": True})
+            elif bad == "set_dtype_bad":
+                ops.append({"op": "set_dtype", "h": h, "dtype": rng.choice(["int16", "int32", "float16"]), "maybe_refused": True,
+                            "via_property": rng.random() < 0.5})
+            elif bad == "sub_too_much":
+                ops.append({"op": "isub", "h": h, "o": 1 - h, "maybe_refused": True})
+            else:
+                ops.append({"op": "invalid", "what": bad, "h": h, "o": 1 - h})
+            continue
+        kind = rng.choice(["fill", "fill", "fill_n", "iadd", "add", "imul", "idiv", "normalize", "merge_axis", "copy", "projection",
+                           "select", "partial"])
+        tags.append(kind)
+        if kind == "fill":
+            v = [rng.choice([mid[a], axes[a][1][-1][1], axes[a][1][0][0] - 1.0, axes[a][1][-1][1] + 1.0]) for a in range(d)]
+            wt, wk = rng.choice([(1, "pyint"), (2, "pyint"), (0.5, "pyfloat")])
+            ops.append({"op": "fill", "h": h, "v": [rs(x) for x in v], "w": rs(wt), "wk": wk, "default_w": False})
+        elif kind == "fill_n":
+            rows = [[rs(rng.choice([mid[a], axes[a][1][-1][0], axes[a][1][0][0] - 1.0])) for a in range(d)] for _ in range(rng.choice([0, 1, 3]))]
+            ops.append({"op": "fill_n", "h": h, "rows": rows, "ws": None, "wkind": None})
+        elif kind == "iadd":
+            ops.append({"op": "iadd", "h": h, "o": 1 - h})
+        elif kind == "add":
+            ops.append({"op": "add", "a": h, "b": 1 - h, "out": nfree}); nfree += 1
+        elif kind == "imul":
+            ops.append({"op": "imul", "h": h, "c": rng.choice(["2", "3", "1/2"]), "k": rng.choice(["pyint", "pyfloat"])})
+            if ops[-1]["c"] == "1/2":
+                ops[-1]["k"] = "pyfloat"
+        elif kind == "idiv":
+            ops.append({"op": "idiv", "h": h, "c": rng.choice(["2", "4"]), "k": "pyint"})
+        elif kind == "normalize":
+            ops.append({"op": "normalize", "h": h, "percent": False, "inplace": True, "maybe_refused": True})
+        elif kind == "merge_axis":
+            ops.append({"op": "merge", "h": h, "amount": 2, "axis": rng.randrange(d), "inplace": True, "maybe_refused": True})
+        elif kind == "copy":
+            ops.append({"op": "copy", "h": h, "out": nfree, "with_freq": True}); nfree += 1
+        elif kind == "projection":
+            ops.append({"op": "projection", "h": h, "axes": [rng.randrange(d)], "out": nfree}); nfree += 1
+        elif kind == "select":
+            ops.append({"op": "select", "h": h, "axis": rng.randrange(d), "index": 0, "out": nfree}); nfree += 1
+        elif kind == "partial":
+            if d == 2:
+                ops.append({"op": "partial_normalize", "h": h, "axis": rng.choice([0, 1]), "inplace": True})
+    tol = any(o["op"] in ("normalize", "partial_normalize") for o in ops)
+    return {"kind": "histn", "ops": ops, "tags": tags, "tolerance": tol, "sub": "nd"}
+
+
+def _cells(snap):
+    """content / squared error per cell keyed by the cell's bin edges (zero cells dropped)"""
+    out = {}
+    for pos, idx in enumerate(gennd.unravel(snap["shape"])):
+        f, e = snap["freq"][pos], snap["err2"][pos]
+        if f in ("inf", "-inf", None) or e in ("inf", "-inf", None):
+            out[idx] = (f, e)
+            continue
+        if Fraction(f) != 0 or Fraction(e) != 0:
+            key = tuple(tuple(snap["bins"][a][i]) for a, i in enumerate(idx))
+            out[key] = (Fraction(f), Fraction(e))
+    return out
+
+
+def c18_wellformed(snap):
+    out = []
+    if not snap["_shape_ok"]:
+        out.append("shape: frequencies / errors2 / bins shapes do not match")
+    n = 1
+    for x in snap["shape"]:
+        n *= x
+    if len(snap["freq"]) != n or len(snap["err2"]) != n or snap["shape"] != [len(b) for b in snap["bins"]]:
+        out.append("shape: frequencies / errors2 / bins lengths do not match")
+    vals = [x for x in snap["freq"] + snap["err2"] if x not in ("inf", "-inf", None)]
+    if any(Fraction(x) < 0 for x in snap["err2"] if x not in ("inf", "-inf", None)):
+        out.append(f"negative_err2: {snap['err2']}")
+    if any(Fraction(x) < 0 for x in snap["freq"] if x not in ("inf", "-inf", None)):
+        out.append(f"negative_content: {snap['freq']}")
+    for a, bb in enumerate(snap["bins"]):
+        bins = [(Fraction(l), Fraction(r)) for l, r in bb]
+        if any(l >= r for l, r in bins) or any(bins[i][1] > bins[i + 1][0] for i in range(len(bins) - 1)):
+            out.append(f"bins_not_rising: axis {a}")
+    if snap["_freq_dtype"] != snap["dtype"] or snap["_err2_dtype"] != snap["dtype"]:
+        out.append(f"dtype_mismatch: dtype {snap['dtype']} over {snap['_freq_dtype']}/{snap['_err2_dtype']} arrays")
+    return out
+
+
+def c18_oracle(case, io):
+    outs, ops = io["outs"], case["ops"]
+    fails = []
+    for k, op in enumerate(ops):
+        regs = outs[k]["regs"]
+        for i, r in enumerate(regs):
+            if r is None:
+                continue
+            for w in c18_wellformed(r):
+                fails.append(f"illformed: after step {k} ({op['op']}) register {i}: {w}")
+        ret = outs[k]["ret"]
+        if op.get("expect_refused") and ret != "REFUSED":
+            fails.append(f"accepted_invalid: step {k} {op['op']} should have been refused")
+        if op["op"] == "invalid" and ret != "REFUSED":
+            fails.append(f"accepted_invalid: step {k} {op['what']} accepted")
+        if ret == "REFUSED" and k > 0:
+            before = outs[k - 1]["regs"]
+            for i, (x, y) in enumerate(zip(before, regs)):
+                if x is None or y is None:
+                    continue
+                if _cells(x) != _cells(y):
+                    fails.append(f"not_atomic: refused step {k} ({op['op']} {op.get('what', '')}) changed contents of register {i}: "
+                                 f"shape {x['shape']} -> {y['shape']}")
+                if x["bins"] != y["bins"] and not any(b.get("adaptive") for b in []):
+                    fails.append(f"not_atomic: refused step {k} ({op['op']} {op.get('what', '')}) changed the bins of register {i}")
+                if x["missed"] != y["missed"]:
+                    fails.append(f"not_atomic: refused step {k} ({op['op']}) changed missed of register {i}: {x['missed']} -> {y['missed']}")
+                if x["dtype"] != y["dtype"] and not np.can_cast(np.dtype(x["dtype"]), np.dtype(y["dtype"])):
+                    fails.append(f"not_atomic: refused step {k} changed dtype {x['dtype']} -> {y['dtype']} (not a lossless promotion)")
+        if len(fails) > 6:
+            break
     return fails[:6]
